@@ -9,6 +9,9 @@
                      boundaries, same annotation at another frame size).  Every call is one plain call of one public
                      function (no call of the harness in between) compared with its textbook value, so a result carried
                      over from an earlier call - a memo keyed by a summary of its arguments - shows as a wrong value.
+                     40 % of the sequences also contain one plain call of a public helper the metrics are built on
+                     (util.intervals_to_samples with a non-zero offset, index_labels, intervals_to_boundaries,
+                     adjust_intervals) on one of the annotations.
   segment.scale      50 000 - 200 000 frames (long shared sections on a fine dyadic grid): ari / mutual_information /
                      nce / vmeasure through the public functions, _contingency_matrix / _adjusted_rand_index on index
                      vectors; expected values from exact integer arithmetic on run lengths (no per-frame loop), the
@@ -213,7 +216,33 @@ def compare(fn, got, missing, want):
     return None
 
 
+def call_helper(step):
+    """a plain call of a public helper the metrics are built on, between two metric calls (frame-centre or phase-shifted
+    sampling, label indexing, boundaries).  Its own result is checked by C13; here it only has to have happened: whatever
+    it leaves behind in the library must not reach the next metric call"""
+    U = S.util
+    ref, _, fs, _ = P._parse(dict(step, est=step["ref"], beta="1"))
+    iv, labs = P.to_arrays(ref)
+    fn = step["fn"]
+    try:
+        if fn == "util:intervals_to_samples":
+            U.intervals_to_samples(iv, labs, offset=float(Fr(step["offset"])), sample_size=float(fs))
+        elif fn == "util:index_labels":
+            U.index_labels(labs)
+        elif fn == "util:intervals_to_boundaries":
+            U.intervals_to_boundaries(iv)
+        elif fn == "util:adjust_intervals":
+            U.adjust_intervals(iv, labs, t_min=float(Fr(step["offset"])), t_max=float(iv.max()) + float(fs))
+        else:
+            raise ValueError(fn)
+    except Exception as e:  # noqa: BLE001
+        raise P.ImplRaised("%s raised %s: %s" % (fn, type(e).__name__, e))
+    return None
+
+
 def check_call(step, large=False):
+    if step.get("fn", "").startswith("util:"):
+        return call_helper(step)
     ref, est, fs, beta = P._parse(step)
     fn = step.get("fn", "evaluate")
     if not ref or not est:
@@ -376,6 +405,15 @@ def gen_sequence_input(rng):
     k = rng.choice([2, 2, 3, 3, 4])
     calls = [{"fn": fns[i], "ref": jsegs(r), "est": jsegs(e), "frame_size": str(f), "beta": str(beta)}
              for i, (r, e, f) in enumerate(anns[:k])]
+    if rng.random() < 0.4:
+        # a public helper called on one of the annotations between (or before) the metric calls
+        at = rng.randrange(0, len(calls))
+        r, e, f = anns[at]
+        h = rng.choice(["util:intervals_to_samples"] * 3 + ["util:index_labels", "util:intervals_to_boundaries",
+                                                           "util:adjust_intervals"])
+        calls.insert(at, {"fn": h, "ref": jsegs(rng.choice([r, e])), "frame_size": str(f),
+                          "offset": str(f * rng.choice([Fr(1, 2), Fr(1), Fr(1), Fr(2), Fr(5, 4)]))})
+        kind += "+helper"
     return {"kind": kind, "calls": calls}
 
 
